@@ -10,6 +10,7 @@
 namespace vbus {
 
 Bus g;
+thread_local int t_clientIdx = -1;
 
 void Bus::reset() {
   std::lock_guard<std::recursive_mutex> l(mtx);
@@ -20,6 +21,12 @@ void Bus::reset() {
   failPpoll.clear(); failRead.clear(); zeroRead.clear(); failWrite.clear(); shortWrite.clear();
   faultsFired = 0;
   stopRequested = false;
+  for (auto& c : clientWaiting) c = false;
+  for (auto& c : clientState) c = 0;
+  holdTimeWhileClientsRun = false;
+  idleRealSleepUs = 0;
+  realUsPerVirtualMs = 0;
+  paceDebt = 0;
 }
 
 ebusd::result_t SimTransport::openInternal() {
@@ -41,6 +48,7 @@ void SimTransport::checkDevice() {
   if (!valid) close();
 }
 
+void realSleepUs(long us);
 }  // namespace vbus
 
 using vbus::g;
@@ -76,6 +84,17 @@ int __wrap_ppoll(struct pollfd* fds, nfds_t nfds, const struct timespec* tmo, co
     l.unlock();
     return __real_ppoll(fds, nfds, tmo, sm);
   }
+  if (g.holdTimeWhileClientsRun) {
+    // a client thread is between "released" and "blocked": let it get there before virtual time moves on
+    l.unlock();
+    for (int spin = 0; spin < 20000; spin++) {
+      bool running = false;
+      for (auto& c : g.clientState) if (c == 1) { running = true; break; }
+      if (!running) break;
+      __real_usleep(10);
+    }
+    l.lock();
+  }
   long idx = g.ppollCalls++;
   fds[0].revents = 0;
   if (g.failPpoll.count(idx)) {
@@ -87,12 +106,24 @@ int __wrap_ppoll(struct pollfd* fds, nfds_t nfds, const struct timespec* tmo, co
   int64_t horizon = g.now + timeout;
   if (g.pump) g.pump(horizon);
   if (!g.rx.empty() && g.rx.front().t <= horizon) {
-    if (g.rx.front().t > g.now) g.now = g.rx.front().t;
+    if (g.rx.front().t > g.now) {
+      int64_t delta = g.rx.front().t - g.now;
+      g.now = g.rx.front().t;
+      if (g.realUsPerVirtualMs > 0) {
+        g.paceDebt += (double)delta / 1e6 * g.realUsPerVirtualMs;
+        if (g.paceDebt >= 50) { long us = (long)g.paceDebt; g.paceDebt -= us; l.unlock(); __real_usleep((useconds_t)us); l.lock(); }
+      }
+    }
     fds[0].revents = POLLIN;
     return 1;
   }
+  if (g.realUsPerVirtualMs > 0) g.paceDebt += (double)(horizon - g.now) / 1e6 * g.realUsPerVirtualMs;
   g.now = horizon;
   if (g.onIdle) g.onIdle();
+  long slp = g.idleRealSleepUs;
+  if (g.paceDebt >= 50) { slp += (long)g.paceDebt; g.paceDebt -= (long)g.paceDebt; }
+  l.unlock();
+  if (slp > 0) __real_usleep((useconds_t)slp);
   return 0;
 }
 
@@ -164,11 +195,18 @@ int __wrap_pthread_cond_timedwait(pthread_cond_t* c, pthread_mutex_t* m, const s
     }
   }
   // other waiters (client threads in Queue::remove): the deadline is in virtual time, wait a short real time instead
+  int ci = vbus::t_clientIdx;
+  if (ci >= 0 && ci < 64) { g.clientWaiting[ci] = true; g.clientWaits++; g.clientState[ci] = 2; }
   struct timespec rt;
   __real_clock_gettime(CLOCK_REALTIME, &rt);
   rt.tv_nsec += 2000000;
   if (rt.tv_nsec >= 1000000000) { rt.tv_sec++; rt.tv_nsec -= 1000000000; }
   int r = __real_pthread_cond_timedwait(c, m, &rt);
+  if (ci >= 0 && ci < 64) { g.clientWaiting[ci] = false; g.clientState[ci] = 1; }
   return r;
 }
+}
+
+namespace vbus {
+void realSleepUs(long us) { __real_usleep((useconds_t)us); }
 }
